@@ -14,6 +14,12 @@ CHECKS = {
         note="Trusted: the reference evaluator (validated against the 875 compliance cases on every run), the printer/parser self-check, serde_json as value container.",
         technique="runtime monitoring: reference-model differential oracle over generated workloads",
     ),
+    "C02": dict(
+        text="Differential and contract monitoring of all 26 built-ins on generated well-typed calls (direct, and nested inside projections and "
+        "other calls); a recording custom function observes that expression references are evaluated exactly once per element.",
+        note="Trusted: the reference functions (from the function specification; validated against the compliance suite's functions.json on every run).",
+        technique="runtime monitoring: reference-function oracle + recording-function event log over generated calls",
+    ),
     "C03": dict(
         text="Acceptance monitoring: compile() of the real crate is observed on an exhaustively enumerated space of short token sequences and on "
         "large random families (grammar sentences, one-token mutants, token/character soup, truncations); the oracle is an independent strict "
@@ -34,6 +40,12 @@ CHECKS = {
         "A BEGIN/END log names the culprit when a worker dies.",
         note="Trusted: the OS process boundary, rlimits, the Rust panic machinery. Bounded time is decided against CPU budgets, never wall clock.",
         technique="runtime monitoring: crash/panic/CPU-budget process monitor over hostile workloads, two builds",
+    ),
+    "C06": dict(
+        text="The complete function x arity x argument-type-class decision table (112219 cells) is executed on the real code and each observed outcome "
+        "class (arity error / type error / unknown function / value of a declared type) is compared with the specification's signature table.",
+        note="Trusted: the signature table in harness/refimpl/src/eval.rs (26 rows from the function specification).",
+        technique="runtime monitoring: exhaustive decision-table execution against a specification signature table",
     ),
 }
 
